@@ -1,6 +1,6 @@
 SPECIFICATION Spec
 CONSTANTS
-  MaxIdx = 7
+  MaxIdx = 3
   Triples = TRUE
 INVARIANT Emit
 CHECK_DEADLOCK FALSE
